@@ -131,10 +131,13 @@ class Gen:
                 'la': str(r.randint(1, 8)), 'ti': str(r.randint(1101, 2678)), 'cx': str(r.choice([0, r.randint(1, 30000)])),
                 'cy': str(r.choice([0, 1, r.randint(1, 30000)])), 'fi': r.choice('NY'), 'cn': str(r.choice([0, 0, 2, 18])), 'idx': idx}
 
-    def build(self, st, quals, hv, f, single_end=False, L=76, cell='any'):
+    def build(self, st, quals, hv, f, single_end=False, L=76, cell='any', content=None, prefer=None):
         """Try to build a pair this strategy accepts. quals: function (mate, pos) -> phred character."""
         r = self.rng
-        for lay in self.layouts(st) or [None]:
+        lays = self.layouts(st) or [None]
+        if prefer is not None and hasattr(st, prefer):       # e.g. the transcriptome layout of the DamID+T strategies
+            lays = [getattr(st, prefer)] + [x for x in lays if x is not getattr(st, prefer)]
+        for lay in lays:
             wl = self.whitelist(lay) if lay is not None else None
             if lay is not None and not wl:
                 continue
@@ -150,6 +153,21 @@ class Gen:
                 umi_slices = self.place(lay, seqs, list(bc))
             if type(st).__name__ == 'SCCHIC_384w_c8_u3_pdt':
                 seqs[0][40:49] = list('AGACTCTTT')
+            if content and type(st).__name__ == 'SCCHIC_384w_c8_u3_cs2' and lay is not None and cell == 'any':
+                # content dependent TCHIC branches: bleed-through of the same well's CEL-Seq2 barcode + poly-T (dt=VASA, rx = the
+                # 6 bases in front of it when there are any), T7 promoter remnant (RR=T7_found)
+                from singlecellmultiomics.utils import reverse_complement
+                bi = lay.barcodeFileParser[lay.barcodeFileAlias][bc]
+                motif = st.id_to_cs2_barcode.get(bi)
+                umi6 = ''.join(r.choice('ACG') for _ in range(6))
+                if motif and content == 'vasa_r1':
+                    seqs[0][20:20 + 6 + len(motif)] = list(umi6 + motif)
+                elif motif and content == 'vasa_r1_noumi':
+                    seqs[0][12:12 + len(motif)] = list(motif)        # the insert starts at 12: nothing in front of the barcode
+                elif motif and content == 'vasa_r2':
+                    seqs[1][10:10 + 6 + len(motif)] = list(reverse_complement(umi6 + motif))
+                elif content == 't7':
+                    seqs[0][15:26] = list('AGTCCGACGAT')
             n = 1 if single_end else 2
             recs = [self.FastqRecord(self.header(hv, f, m), ''.join(seqs[m]), '+', ''.join(quals(m, p) for p in range(L)))
                     for m in range(n)]
@@ -204,7 +222,7 @@ def roundtrip(g, st, recs, lib, ev):
         except ValueError:
             e['refused'] = True
         except Exception as ex:
-            e['raised'] = 'asFastq:' + type(ex).__name__
+            e['ser_raised'] = type(ex).__name__       # a raise while serialising an accepted pair
         seg = None
         if e['header']:
             seg = pysam.AlignedSegment(HEADER)
@@ -278,7 +296,7 @@ def replay(out, ev):
             g.whitelist(lay)        # registers the cell-index-0 member exactly as the recording run did
         recs = [g.FastqRecord(h, s, '+', q) for h, s, q in ev['reads']]
         base = dict(ev)
-        base.update(raised='', refused=False, stored=False, digested=False, digest_raised='', dt=[], dt_types=[], header=[], bt=[],
+        base.update(raised='', ser_raised='', refused=False, stored=False, digested=False, digest_raised='', dt=[], dt_types=[], header=[], bt=[],
                     qname=[], mate=0)
         for e in roundtrip(g, st, recs, ''.join(map(chr, ev['ly'])), base):
             if e['mate'] == ev['mate'] or e['raised']:
@@ -308,7 +326,7 @@ def main():
         return {'ev': 'pair', 'tid': tid[0], 'strategy': st.shortName, 'hv': hv, 'mode': mode, 'mate': 0, 'ixp': ixp,
                 'in': {k: codes(v) for k, v in fld.items()}, 'ly': codes(lib),
                 'umi_in': codes(umi) if umi is not None else [], 'umiq_in': codes(umiq) if umiq is not None else [],
-                'umi_known': umi is not None, 'raised': '', 'refused': False, 'stored': False, 'digested': False,
+                'umi_known': umi is not None, 'raised': '', 'ser_raised': '', 'refused': False, 'stored': False, 'digested': False,
                 'digest_raised': '', 'dt': [], 'dt_types': [], 'header': [], 'bt': [], 'qname': [], 'shape': ''}
 
     # (1) the two quality-code functions on all 94 phred characters
@@ -416,6 +434,25 @@ def main():
             ev0['loader'] = 'k1'
             for e in roundtrip(g, st1, recs, lib, ev0):
                 e['uq'] = ord('F')
+                emit(e)
+
+    # (2f) content dependent branches that write the rarely used tags (rx, tu, dt, RR): TCHIC bleed-through / T7, the
+    #      transcriptome side of the DamID+T strategies (CHICTV's tu is written by every CHICTV pair above)
+    byname = {type(x).__name__: x for x in g.strategies if x.shortName in reachable}
+    special = [(byname.get('SCCHIC_384w_c8_u3_cs2'), c, None) for c in ('vasa_r1', 'vasa_r1_noumi', 'vasa_r2', 't7')] + \
+              [(byname.get(n), 'rna', 'transcriptome_demux') for n in ('DamID2_c8_u3_cs2', 'DamID2andT_SCA', 'DamID2andT_SCA6')]
+    for st, content, prefer in special:
+        if st is None:
+            continue
+        for rep in range(1 if tier == 'quick' else 5):
+            fld = g.fields(rng.choice(['single', 'dual']))
+            c = rng.choice(phreds)
+            recs, umi, umiq = g.build(st, uniform(c), 'illumina11', fld, single_end(st), content=content, prefer=prefer)
+            if recs is None:
+                continue
+            lib = ''.join(rng.choice(SAFE) for _ in range(rng.randint(1, 20)))
+            for e in roundtrip(g, st, recs, lib, blank(st, 'illumina11', fld, lib, 'content_' + content, None, None)):
+                e['uq'] = ord(c)
                 emit(e)
 
     # (2e) a sequencing index that is not in the index list (index parser configured): the pair is NOT accepted
